@@ -131,6 +131,24 @@ func c08Perturb(p *synth.Project, i int, seed int64) string {
 	case 5: // a header and a query parameter sharing a wire name (legal: unique per location)
 		s.m.Params = append(s.m.Params, synth.Param{GoName: "samea", Type: synth.Prim("string"), In: "query", Wire: "same"}, synth.Param{GoName: "sameb", Type: synth.Prim("string"), In: "header", Wire: "same"})
 		return "same-wire-name-different-location"
+	case 7: // a header / query parameter that shares its wire name with a path parameter and precedes it (legal)
+		w := ""
+		for _, pr := range s.m.Params {
+			if pr.In == "path" && pr.GoName != "tenant" {
+				w = pr.WireName()
+			}
+		}
+		if w == "" {
+			s.m.Route += "/{sid}"
+			s.m.Params = append(s.m.Params, synth.Param{GoName: "sid", Type: synth.Prim("string"), In: "path"})
+			w = "sid"
+		}
+		in := []string{"header", "query"}[r.Intn(2)]
+		if r.Intn(3) == 0 {
+			w = strings.ToUpper(w[:1]) + w[1:] // other letter case: still another parameter
+		}
+		s.m.Params = append([]synth.Param{{GoName: "shadow", Type: synth.Prim("string"), In: in, Wire: w}}, s.m.Params...)
+		return "path-wire-name-reused-in-" + in
 	case 6: // default security names an undeclared scheme
 		p.Config.DefaultSecurity = &synth.Security{Scheme: "ghostDefault", Scopes: []string{}}
 		p.SetFeature("undeclared-scheme")
